@@ -199,6 +199,7 @@ type recPlugin struct {
 	mu   sync.Mutex
 	sess []*session
 	nUpd int // updates seen in the current session
+	argsChanged bool // a callback's arguments changed while it was running
 	// retained slices handed to the handler, with a copy made at delivery
 	kept  [][]byte
 	kept0 [][]byte
@@ -280,6 +281,15 @@ func (p *recPlugin) OnOpenMessage(pc corebgp.PeerConfig, rid netip.Addr, caps []
 	}
 	p.r.tr.emit(event{E: "cb", P: p.cfg.Name, N: "OnOpenMessage", K: k, Caps: cj})
 	p.hold("OnOpenMessage")
+	// what the callback was given must still be what it sees when it returns
+	// (however long it took and whatever arrived meanwhile)
+	for i, c := range caps {
+		if i >= len(cj) || c.Code != cj[i].Code || fmt.Sprint(toInts(c.Value)) != fmt.Sprint(cj[i].Val) {
+			p.mu.Lock()
+			p.argsChanged = true
+			p.mu.Unlock()
+		}
+	}
 	if p.cfg.OpenReply != nil {
 		return &corebgp.Notification{Code: p.cfg.OpenReply.Code, Subcode: p.cfg.OpenReply.Sub,
 			Data: toBytes(p.cfg.OpenReply.Data)}
@@ -344,6 +354,9 @@ func (p *recPlugin) OnClose(pc corebgp.PeerConfig) {
 func (p *recPlugin) retainedIntact() bool {
 	p.mu.Lock()
 	defer p.mu.Unlock()
+	if p.argsChanged {
+		return false
+	}
 	for i := range p.kept {
 		if string(p.kept[i]) != string(p.kept0[i]) {
 			return false
